@@ -116,3 +116,102 @@ def in_range_facts(d, xkey, bounds=("created_users", "usercount")):
     lo = guard.d_holds(d, ">=", xkey, 0)
     hi = any(guard.d_holds(d, "<", xkey, b) for b in bounds)
     return lo and hi
+
+
+def check_obligations(P, E, chk, rid, reach, sites, form_ok, what, call_kinds=("call",)):
+    """Discharge `sites` = [(func, node, index expr or None, kind, description)].
+
+    form_ok(d, xk, kind) returns the name of the accepted guard form that
+    disjunct d establishes for session index key xk, or None.  A site whose
+    index is a never-assigned parameter of its function and that is not
+    discharged locally becomes an obligation on every call site (kind
+    'call'), transitively.  Returns {function name: [param names]} of the
+    functions that carry such an obligation."""
+    reach_ids = {id(f) for f in reach}
+    funcs = {id(f): f for f in reach}
+    requires = {}
+
+    def one(f, node, xexpr, kind, desc, reason=None):
+        an = E.analysis(f)
+        ds = an.before_node(node["n"])
+        if ds is None:
+            chk.site(rid, f, ir.loc(node), desc, True, "unreachable code")
+            return
+        xk = None if xexpr is None else (pp(xexpr) if cval(sk(xexpr)) is None else str(cval(sk(xexpr))))
+        forms = set()
+        bad = []
+        for d in ds:
+            fm = form_ok(d, xk, kind)
+            if fm:
+                forms.add(fm)
+            else:
+                bad.append(d)
+        if not bad:
+            chk.site(rid, f, ir.loc(node), desc, True, "guard: " + ", ".join(sorted(forms)))
+            return
+        pi = param_of(f, xexpr) if xexpr is not None else None
+        if pi is not None:
+            new = pi not in requires.setdefault(id(f), {})
+            if new:
+                requires[id(f)][pi] = reason or "%s at %s:%d" % (desc, f.unit.file, ir.loc(node))
+                work.append(id(f))
+            chk.site(rid, f, ir.loc(node), desc, True,
+                     "obligation moved to the callers of %s (parameter %s)" % (f.name, f.params[pi]["ref"]["name"]))
+            return
+        chk.site(rid, f, ir.loc(node), desc, False,
+                 ("no dominating %s(%s) on some path" % (what, xk or "any session")) + (" [needed by %s]" % reason if reason else ""),
+                 witness={"facts_on_a_failing_path": fmt_d(bad[0], 30), "forms_seen_on_other_paths": sorted(forms)})
+
+    work = []
+    for f, node, xexpr, kind, desc in sites:
+        one(f, node, xexpr, kind, desc)
+    done = set()
+    while work:
+        fid = work.pop()
+        f = funcs[fid]
+        for pi, reason in list(requires[fid].items()):
+            if (fid, pi) in done:
+                continue
+            done.add((fid, pi))
+            callers = [(g, c) for g, c in P.callers_of(f) if id(g) in reach_ids]
+            if not callers:
+                chk.site(rid, f, f.line, "entry point %s needs %s(%s)" % (f.name, what, f.params[pi]["ref"]["name"]),
+                         False, "no caller establishes it (%s)" % reason)
+            for g, c in callers:
+                args = c.get("a", [])
+                if pi >= len(args):
+                    continue
+                one(g, c, sk(args[pi]), call_kinds[0],
+                    "call %s(%s=%s)" % (f.name, f.params[pi]["ref"]["name"], pp(sk(args[pi]))), reason)
+    return {funcs[fid].name: [funcs[fid].params[i]["ref"]["name"] for i in sorted(ps)] for fid, ps in requires.items()}
+
+
+def users_index_expr(e):
+    for x in walk(e):
+        if x.get("k") == "Sub":
+            b = sk(x["a"][0])
+            if b.get("k") == "Ref" and b["ref"]["name"] == "users" and b["ref"]["rk"] == "global":
+                return sk(x["a"][1])
+    return None
+
+
+def users_write_sites(P, f, skip_fields=()):
+    """(node, index expr, index key, field) for every write into users[x].F in f."""
+    out = []
+    for node, pth, pt, val, kind in writes_in(P, f):
+        ua = users_access(pth)
+        if ua is None:
+            continue
+        xk, fld = ua
+        if fld in skip_fields:
+            continue
+        tgt = node["a"][0] if node.get("k") in ("Bin", "Un") else None
+        xexpr = users_index_expr(tgt) if tgt is not None else None
+        if xexpr is None and node.get("k") == "Call":
+            for a in node.get("a", ()):
+                if ir.pointee_path(a) == pth:
+                    xexpr = users_index_expr(a)
+        if xexpr is None:
+            continue
+        out.append((node, xexpr, xk, fld, val, kind))
+    return out
